@@ -19,4 +19,9 @@ def knownPlainReads : List (String × String) :=
 def knownSlots : List String :=
   ["core/outlier.Slot.Check", "core/outlier.MetricStatSlot.OnCompleted", "core/outlier.LoadRules", "core/outlier.ClearRules"]
 
+/-- known finding `outlier-lost-insert`: map insertions that are not re-checked under a lock all writers share -/
+def knownInserts : List (String × String) :=
+  [("core/outlier.nodeBreakers[*][*]", "core/outlier.addNodeBreakerOfResource"),
+   ("core/outlier.nodeBreakers[*]", "core/outlier.onResourceRuleUpdate")]
+
 end Sentinel.C15
